@@ -433,6 +433,107 @@ theorem wellFormed_of_all_positions (s : List Event)
       exact this
   exact aux s [] rfl
 
+/-! ## splitting a check by keys (used to confine the known finding F6 to the moved keys) -/
+
+theorem lookup_restrictMap (p : Key → Bool) (m : FinMap) (k : Key) :
+    lookup (restrictMap p m) k = if p k = true then lookup m k else none := by
+  induction m with
+  | nil => simp [restrictMap, lookup]
+  | cons q m ih =>
+    obtain ⟨c, v⟩ := q
+    simp only [restrictMap] at ih
+    by_cases hpc : p c = true
+    · simp only [restrictMap, List.filter_cons, hpc, if_true, lookup, ih]
+      by_cases hk : k = c
+      · subst hk; simp [hpc]
+      · simp [hk]
+    · have hpc' : p c = false := by simpa using hpc
+      simp only [restrictMap, List.filter_cons, hpc', Bool.false_eq_true, if_false, lookup]
+      by_cases hk : k = c
+      · subst hk; rw [ih]; simp [hpc']
+      · rw [ih]; simp [hk]
+
+theorem proj_restrictStream (p : Key → Bool) (s : List Event) (k : Key) :
+    proj k (restrictStream p s) = if p k = true then proj k s else [] := by
+  induction s with
+  | nil => simp [proj, restrictStream]
+  | cons e s ih =>
+    simp only [proj, restrictStream] at ih
+    by_cases hpe : p e.key = true
+    · simp only [proj, restrictStream, List.filter_cons, hpe, if_true]
+      by_cases hk : e.key = k
+      · subst hk; simp only [beq_self_eq_true, if_true, hpe] at ih ⊢; rw [ih]
+      · have : (e.key == k) = false := by simpa using hk
+        simp only [this]; exact ih
+    · simp only [proj, restrictStream, List.filter_cons, hpe]
+      by_cases hk : e.key = k
+      · subst hk; simp only [hpe, if_false] at ih ⊢; simpa using ih
+      · have : (e.key == k) = false := by simpa using hk
+        simp only [this]; exact ih
+
+/-- replaying events that all carry key `k` from two copies that agree on `k` -/
+theorem lookup_replayFrom_sameKey (k : Key) (t : List Event) (m1 m2 : FinMap)
+    (h12 : lookup m1 k = lookup m2 k) (hall : ∀ e ∈ t, e.key = k) :
+    lookup (replayFrom m1 t) k = lookup (replayFrom m2 t) k := by
+  induction t generalizing m1 m2 with
+  | nil => exact h12
+  | cons e' t iht =>
+    rw [replayFrom_cons, replayFrom_cons]
+    apply iht
+    · have hk : e'.key = k := hall e' (List.mem_cons_self ..)
+      cases e' <;> simp only [Event.key] at hk <;> subst hk <;>
+        simp [applyEv, lookup_set_self, lookup_erase_self]
+    · intro e'' he''; exact hall e'' (List.mem_cons_of_mem _ he'')
+
+theorem lookup_replayFrom_restrict (p : Key → Bool) (m0 : FinMap) (s : List Event) (k : Key) :
+    lookup (replayFrom (restrictMap p m0) (restrictStream p s)) k =
+      if p k = true then lookup (replayFrom m0 s) k else none := by
+  rw [lookup_replayFrom_proj, proj_restrictStream]
+  by_cases hp : p k = true
+  · simp only [hp, if_true]
+    rw [lookup_replayFrom_proj k s m0]
+    apply lookup_replayFrom_sameKey
+    · rw [lookup_restrictMap]; simp [hp]
+    · intro e he
+      simp only [proj, List.mem_filter, beq_iff_eq] at he
+      exact he.2
+  · simp only [hp]
+    simp [replayFrom_nil, lookup_restrictMap, hp]
+
+theorem wellFormedFrom_restrict (p : Key → Bool) (m0 : FinMap) (s : List Event) :
+    WellFormedFrom (restrictMap p m0) (restrictStream p s) ↔
+      ∀ k, p k = true → KeyWord (lookup m0 k) (proj k s) := by
+  simp only [WellFormedFrom, lookup_restrictMap, proj_restrictStream]
+  constructor
+  · intro h k hp; have := h k; simpa [hp] using this
+  · intro h k
+    by_cases hp : p k = true
+    · simpa [hp] using h k hp
+    · simp only [hp]; exact KeyWord.nil _
+
+/-- **Per-key decomposition of the monitor**: checking a stream against contents is the same as
+    checking, for any set of keys `p`, the restriction to `p` and the restriction to the rest. -/
+theorem monitorFromB_split (p : Key → Bool) (m0 : FinMap) (s : List Event) (m : FinMap) :
+    monitorFromB m0 s m = true ↔
+      monitorFromB (restrictMap p m0) (restrictStream p s) (restrictMap p m) = true ∧
+      monitorFromB (restrictMap (fun k => !p k) m0) (restrictStream (fun k => !p k) s)
+        (restrictMap (fun k => !p k) m) = true := by
+  simp only [monitorFromB_iff, wellFormedFrom_restrict, MapEq, lookup_replayFrom_restrict,
+    lookup_restrictMap]
+  constructor
+  · rintro ⟨hw, hm⟩
+    refine ⟨⟨fun k _ => hw k, fun k => ?_⟩, ⟨fun k _ => hw k, fun k => ?_⟩⟩
+    · by_cases hp : p k = true <;> simp [hp, hm k]
+    · by_cases hp : p k = true <;> simp [hp, hm k]
+  · rintro ⟨⟨hw1, hm1⟩, ⟨hw2, hm2⟩⟩
+    refine ⟨fun k => ?_, fun k => ?_⟩
+    · by_cases hp : p k = true
+      · exact hw1 k hp
+      · exact hw2 k (by simpa using hp)
+    · by_cases hp : p k = true
+      · have := hm1 k; simpa [hp] using this
+      · have := hm2 k; simpa [hp] using this
+
 /-! ## Non-vacuity -/
 
 example : monitorB [.add "a" "1", .update "a" "1" "2", .add "b" "x", .delete "a" "2", .add "a" "3"]
